@@ -1719,6 +1719,273 @@ func (g *pgen) ptrStmt(o *pout) {
 	}
 }
 
+// extraStmt: further constructs, each a small template over the variables in scope.
+func (g *pgen) extraStmt(o *pout, depth int) {
+	id := g.id
+	intv := func(label string) string {
+		if v, ok := g.pickVar(g.typed("int"), label); ok {
+			return v.name
+		}
+		return g.nonConstInt("int", 1)
+	}
+	switch g.n(0, 17, "exk") {
+	case 0:
+		// if with init statement and comma-ok
+		g.cat("if")
+		g.cat("map")
+		if m, ok := g.pickVar(g.typed("map[string]int"), "exm"); ok {
+			x := g.fresh()
+			o.line("if %s, ok := %s[%s]; ok {", x, m.name, pMapKeys[g.n(0, len(pMapKeys)-1, "mk")])
+			o.line("\temit(\"found \" + itoa(int64(%s)))", x)
+			o.line("} else if %s == 0 {", x)
+			o.line("\temit(\"absent\")")
+			o.line("}")
+		} else {
+			g.mapStmt(o)
+		}
+	case 1:
+		// switch with init statement, tagless
+		g.cat("switch")
+		x := g.fresh()
+		o.line("switch %s := %s; {", x, g.nonConstInt("int", 2))
+		o.line("case %s > %s:", x, g.intLit("int8"))
+		o.line("\temit(\"gt\")")
+		o.line("case %s < 0, %s == 7:", x, x)
+		o.line("\temit(\"neg or 7\")")
+		o.line("default:")
+		o.line("\temit(\"dflt \" + itoa(int64(%s %% 3)))", x)
+		o.line("}")
+	case 2:
+		// maps keyed by arrays and structs
+		g.cat("map")
+		g.cat("array")
+		g.needStruct()
+		m, k := g.fresh(), g.fresh()
+		o.line("%s := map[[2]int8]int{}", m)
+		o.line("%s := [2]int8{%s, 2}", k, g.intExpr("int8", 1).s)
+		o.line("%s[%s] += 5", m, k)
+		o.line("%s[1]++", k)
+		o.line("%s[%s] += 7", m, k)
+		o.line("%s[1]--", k)
+		o.line("%s[%s] *= 3", m, k)
+		o.line("emit(%q + itoa(int64(len(%s))) + \" \" + itoa(int64(%s[%s])))", "arrkey=", m, m, k)
+		ms, ks := g.fresh(), g.fresh()
+		o.line("%s := map[S%s]string{}", ms, id)
+		o.line("%s := S%s{A: %s, B: \"k\"}", ks, id, intv("exa"))
+		o.line("%s[%s] = \"one\"", ms, ks)
+		o.line("%s.C[0] = 1", ks)
+		o.line("%s[%s] += \"two\"", ms, ks)
+		o.line("%s.C[0] = 0", ks)
+		o.line("emit(%q + itoa(int64(len(%s))) + \" \" + %s[%s])", "structkey=", ms, ms, ks)
+	case 3:
+		// equality of interface values
+		g.cat("interface")
+		g.cat("compare")
+		g.needStruct()
+		a, b := g.fresh(), g.fresh()
+		pool := []string{"1", "int8(1)", "int64(1)", "\"1\"", "1.0", "true", "nil", "S" + id + "{A: 1}", "T" + id + "(1)", "[2]int8{1, 0}", "VErr{1}", "uint8(1)", intv("exi")}
+		o.line("var %s, %s interface{} = %s, %s", a, b, pool[g.n(0, len(pool)-1, "ia")], pool[g.n(0, len(pool)-1, "ib")])
+		o.line("emit(%q + btoa(%s == %s) + btoa(%s != nil))", "ifaceeq=", a, b, a)
+	case 4:
+		// slices of slices share the inner backing arrays
+		g.cat("slice")
+		if v, ok := g.pickVar(g.typed("[]int"), "exs"); ok {
+			ss := g.fresh()
+			o.line("%s := [][]int{%s, %s[:len(%s)/2], nil}", ss, v.name, v.name, v.name)
+			o.line("if len(%s[0]) > 0 {", ss)
+			o.line("\t%s[0][0] = %s", ss, g.intExpr("int", 1).s)
+			o.line("}")
+			o.line("%s[2] = append(%s[2], len(%s[1]))", ss, ss, ss)
+			o.line("emit(%q + ints(%s) + ints(%s[1]) + ints(%s[2]))", "nested=", v.name, ss, ss)
+		} else {
+			g.sliceStmt(o)
+		}
+	case 5:
+		// method expressions
+		g.cat("method")
+		g.needStruct()
+		if v, ok := g.pickVar(g.writable("S"), "exst"); ok {
+			f, h := g.fresh(), g.fresh()
+			o.line("%s := S%s.Sum", f, id)
+			o.line("%s := (*S%s).Inc", h, id)
+			o.line("%s(&%s, %s)", h, v.name, g.intExpr("int", 1).s)
+			o.line("emit(%q + itoa(int64(%s(%s))))", "methodexpr=", f, v.name)
+		} else {
+			g.structStmt(o)
+		}
+	case 6:
+		// labelled switch inside a loop: break label leaves the switch, continue goes on with the loop
+		if g.inLoop >= 2 {
+			g.emitStmt(o)
+			return
+		}
+		g.cat("switch")
+		g.cat("for")
+		g.cat("labelled-break")
+		g.lbl++
+		l := "W" + strconv.Itoa(g.lbl)
+		i := g.fresh()
+		o.line("for %s := 0; %s < 4; %s++ {", i, i, i)
+		o.line("%s:", l)
+		o.line("\tswitch {")
+		o.line("\tcase %s == 1:", i)
+		o.line("\t\tcontinue")
+		o.line("\tcase %s == 2:", i)
+		o.line("\t\tif %s {", g.boolExpr(1))
+		o.line("\t\t\tbreak %s", l)
+		o.line("\t\t}")
+		o.line("\t\temit(\"two\")")
+		o.line("\tdefault:")
+		o.line("\t\temit(\"other \" + itoa(int64(%s)))", i)
+		o.line("\t}")
+		o.line("\temit(\"after switch \" + itoa(int64(%s)))", i)
+		o.line("}")
+	case 7:
+		// copy and append between strings and byte slices
+		g.cat("string")
+		g.cat("copy")
+		b := g.fresh()
+		o.line("%s := make([]byte, %d)", b, g.n(0, 5, "bl"))
+		o.line("emit(%q + itoa(int64(copy(%s, %s))) + bytesS(%s))", "copystr=", b, g.strExpr(1).s, b)
+		o.line("%s = append(%s[:0:0], %s...)", b, b, g.strExpr(1).s)
+		o.line("emit(%q + bytesS(%s))", "appendstr=", b)
+	case 8:
+		// recursive closure through a variable
+		g.cat("closure")
+		g.cat("recursion")
+		f := g.fresh()
+		o.line("var %s func(int) int", f)
+		o.line("%s = func(n int) int {", f)
+		o.line("\tif n < 2 {")
+		o.line("\t\treturn n")
+		o.line("\t}")
+		o.line("\treturn %s(n-1) + %s(n-2)", f, f)
+		o.line("}")
+		o.line("emit(%q + itoa(int64(%s(%s & 7))))", "fib=", f, intv("exn"))
+	case 9:
+		// arrays of arrays are values
+		g.cat("array")
+		aa, bb := g.fresh(), g.fresh()
+		o.line("%s := [2][2]int{{1, 2}, {3, %s}}", aa, g.intExpr("int", 1).s)
+		o.line("%s := %s", bb, aa)
+		o.line("%s[0][1] = %s", bb, g.intExpr("int", 1).s)
+		o.line("%s[1] = %s[0]", aa, bb)
+		o.line("emit(%q + ints(%s[0][:]) + ints(%s[1][:]) + ints(%s[1][:]) + btoa(%s == %s))", "arr2=", aa, aa, bb, aa, bb)
+	case 10:
+		// pointers to elements and fields
+		g.cat("pointer")
+		if v, ok := g.pickVar(g.writable("[4]int"), "exarr"); ok {
+			p := g.fresh()
+			o.line("%s := &%s[%d]", p, v.name, g.n(0, 3, "pi"))
+			o.line("*%s += %s", p, g.intExpr("int", 1).s)
+			o.line("emit(%q + ints(%s[:]))", "elemptr=", v.name)
+		} else if v, ok := g.pickVar(g.writable("[]int"), "exsl"); ok {
+			p := g.fresh()
+			o.line("if len(%s) > 0 {", v.name)
+			o.line("\t%s := &%s[0]", p, v.name)
+			o.line("\t%s = append(%s[:0:0], %s...)", v.name, v.name, v.name)
+			o.line("\t%s = %s[:len(%s):len(%s)]", v.name, v.name, v.name, v.name)
+			o.line("\t*%s = 77", p)
+			o.line("\temit(%q + ints(%s) + itoa(int64(*%s)))", "oldelem=", v.name, p)
+			o.line("}")
+		} else {
+			g.ptrStmt(o)
+		}
+	case 11:
+		// receiver and arguments of a deferred method call are evaluated at the defer statement
+		if g.inLoop > 0 || g.inDefer > 0 {
+			g.emitStmt(o)
+			return
+		}
+		g.cat("defer")
+		g.cat("method")
+		g.needStruct()
+		s, k := g.fresh(), g.fresh()
+		o.line("%s, %s := S%s{A: 1}, %s", s, k, id, intv("exd"))
+		o.line("func() {")
+		o.line("\tdefer %s.Inc(%s)", s, k)
+		o.line("\tdefer func(v S%s) { emit(\"deferred copy \" + showS%s(v)) }(%s)", id, id, s)
+		o.line("\t%s = 1000", k)
+		o.line("\t%s.A = 50", s)
+		o.line("}()")
+		o.line("emit(%q + showS%s(%s))", "afterdefer=", id, s)
+	case 12:
+		// named types: arithmetic, methods on slice and func types
+		g.cat("named-type")
+		g.cat("method")
+		g.nfun++
+		n := id + "_" + strconv.Itoa(g.nfun)
+		fmt.Fprintf(&g.decl, "\ntype MI%[1]s int16\n\nfunc (m MI%[1]s) Twice() MI%[1]s { return m * 2 }\n\ntype SL%[1]s []int\n\nfunc (s SL%[1]s) Total() (t int) {\n\tfor _, x := range s {\n\t\tt += x\n\t}\n\treturn\n}\n\ntype FN%[1]s func(int) int\n\nfunc (f FN%[1]s) Apply2(x int) int { return f(f(x)) }\n", n)
+		a := g.fresh()
+		o.line("%s := MI%s(%s)", a, n, g.nonConstInt("int16", 1))
+		o.line("%s = %s.Twice() + 3", a, a)
+		o.line("emit(%q + itoa(int64(%s)) + \" \" + itoa(int64(SL%s{1, 2, %s}.Total())) + \" \" + itoa(int64(FN%s(func(x int) int { return x*3 + 1 }).Apply2(%s))))", "named=", a, n, intv("exq"), n, intv("exr"))
+	case 13:
+		// forward goto out of a loop, inside its own block (no declaration is jumped over)
+		if g.inLoop > 0 || g.inDefer > 0 {
+			g.emitStmt(o)
+			return
+		}
+		g.cat("goto")
+		g.cat("for")
+		g.lbl++
+		l := "F" + strconv.Itoa(g.lbl)
+		i, lim := g.fresh(), g.n(0, 4, "glim")
+		o.line("{")
+		o.line("\tfor %s := 0; %s < 3; %s++ {", i, i, i)
+		o.line("\t\tif %s == %d {", i, lim)
+		o.line("\t\t\tgoto %s", l)
+		o.line("\t\t}")
+		o.line("\t\temit(\"iter \" + itoa(int64(%s)))", i)
+		o.line("\t}")
+		o.line("\temit(\"loop finished\")")
+		o.line("%s:", l)
+		o.line("\temit(\"at label\")")
+		o.line("}")
+	case 14:
+		// constants and iota
+		g.cat("const")
+		g.nfun++
+		n := id + "_" + strconv.Itoa(g.nfun)
+		fmt.Fprintf(&g.decl, "\nconst (\n\tKA%[1]s = iota * %[2]d\n\tKB%[1]s\n\tKC%[1]s\n\t_\n\tKE%[1]s\n)\n\nconst KS%[1]s, KT%[1]s = \"c\" + \"d\", 1 << %[3]d\n\nconst KU%[1]s uint8 = 200 + KC%[1]s%%50\n", n, g.n(1, 9, "im"), g.n(0, 40, "ks"))
+		o.line("emit(%q + itoa(int64(KA%s+KB%s+KC%s+KE%s)) + KS%s + itoa(int64(KT%s)) + utoa(uint64(KU%s+%s)))", "consts=", n, n, n, n, n, n, n, g.nonConstInt("uint8", 1))
+	case 15:
+		// multiple results forwarded to a call; blank identifiers
+		g.cat("call")
+		g.nfun++
+		n := id + "_" + strconv.Itoa(g.nfun)
+		fmt.Fprintf(&g.decl, "\nfunc two%[1]s(a int) (int, int) { return a / 3, a %% 3 }\n\nfunc sum%[1]s(a, b int) int { return a*10 + b }\n", n)
+		x := g.fresh()
+		o.line("_, %s := two%s(%s)", x, n, intv("ext"))
+		o.line("emit(%q + itoa(int64(sum%s(two%s(%s)))) + itoa(int64(%s)))", "forward=", n, n, intv("exu"), x)
+	case 16:
+		// struct values in maps and slices are copies; anonymous structs
+		g.cat("struct")
+		g.cat("map")
+		g.needStruct()
+		m, v := g.fresh(), g.fresh()
+		o.line("%s := map[string]S%s{\"a\": {A: 1}}", m, id)
+		o.line("%s := %s[\"a\"]", v, m)
+		o.line("%s.A = %s", v, g.intExpr("int", 1).s)
+		o.line("emit(%q + itoa(int64(%s[\"a\"].A)) + itoa(int64(%s[\"zz\"].A)))", "mapcopy=", m, m)
+		o.line("%s[\"a\"] = %s", m, v)
+		an := g.fresh()
+		o.line("%s := struct {", an)
+		o.line("\tX int")
+		o.line("\tY []string")
+		o.line("}{X: %s[\"a\"].A}", m)
+		o.line("%s.Y = append(%s.Y, \"q\")", an, an)
+		o.line("emit(%q + itoa(int64(%s.X)) + itoa(int64(len(%s.Y))))", "anon=", an, an)
+	default:
+		// integer <-> string/byte/rune conversions and comparisons of named string types
+		g.cat("conversion")
+		g.cat("string")
+		r := g.fresh()
+		o.line("%s := rune(%s)", r, g.nonConstInt("int32", 1))
+		o.line("emit(%q + hexs(string(%s)) + hexs(string([]rune{%s, 'x'})) + hexs(string([]byte{byte(%s), 'y'})))", "runeconv=", r, r, r)
+	}
+}
+
 // stmtWithPanic generates one statement that may contain one panicking operation with probability pct.
 func (g *pgen) stmtWithPanic(o *pout, depth, pct int) {
 	g.pb = 0
@@ -1738,12 +2005,14 @@ func (g *pgen) stmtInner(o *pout, depth int) {
 		k = k % 40
 	}
 	switch {
-	case k < 12:
+	case k < 11:
 		g.newVarStmt(o)
-	case k < 26:
+	case k < 23:
 		g.assignStmt(o)
-	case k < 40:
+	case k < 33:
 		g.emitStmt(o)
+	case k < 40:
+		g.extraStmt(o, depth)
 	case k < 47:
 		g.ifStmt(o, depth)
 	case k < 53:
@@ -1768,10 +2037,12 @@ func (g *pgen) stmtInner(o *pout, depth int) {
 		g.ifaceStmt(o)
 	case k < 96:
 		g.gotoStmt(o)
-	case k < 98:
+	case k < 97:
 		g.stringStmt(o)
-	default:
+	case k < 98:
 		g.ptrStmt(o)
+	default:
+		g.extraStmt(o, depth)
 	}
 }
 
